@@ -15,6 +15,7 @@ import (
 	"github.com/wrgl/wrgl/pkg/objects"
 	"github.com/wrgl/wrgl/pkg/pbar"
 	"github.com/wrgl/wrgl/pkg/sorter"
+	"github.com/wrgl/wrgl/pkg/verifhook"
 )
 
 type asyncBlock struct {
@@ -84,6 +85,7 @@ func (i *Inserter) insertBlock() {
 			i.errChan <- err
 			return
 		}
+		verifhook.Yield("inserter.afterSaveBlock")
 		i.rowsCount += uint32(blk.RowsCount)
 
 		// write block index and add pk sums to table index
@@ -100,12 +102,14 @@ func (i *Inserter) insertBlock() {
 			return
 		}
 		i.logger.Info("index block", "blockSum", sum, "indexSum", blkIdxSum)
+		verifhook.Yield("inserter.beforeAppend")
 		i.asyncBlocks = append(i.asyncBlocks, asyncBlock{
 			Offset: blk.Offset,
 			Sum:    sum,
 			IdxSum: blkIdxSum,
 			PK:     blk.PK,
 		})
+		verifhook.Yield("inserter.afterAppend")
 		if i.pt != nil {
 			i.pt.Incr()
 		}
